@@ -152,8 +152,19 @@ def run_obligation(ob, pid, suite_dir, root, keep):
                 need = ob.get("expect_classes", [])
                 missing = [c for c in need if not any(re.search(c, k) for k in cl["classes"])]
                 real_fail = [x for x in cl["failed"] if not x.get("internal")]
+                def violation():
+                    res["status"] = "violation"
+                    res["failed"] = cl["failed"]
+                    fp = cl["failed"][0]["property"]     # counterexample for the first failed property
+                    if ob.get("replay"):
+                        tr, why = C.trace_for(ob, scratch, gb, fp, log)
+                        res["cex"] = tr
+                    res["cbmc_tail"] = [f for f in cl["failed"]][:10]
                 if cl["unwind_failed"] and not real_fail:
                     res["why"] = "unwinding assertion failed: %s" % cl["unwind_failed"][:3]
+                elif real_fail:
+                    # a FAILURE of a real property is a reachable counterexample in its own right: it decides before vacuity / count checks
+                    violation()
                 elif not cl["canary_seen"] or not cl["canary_fired"]:
                     res["why"] = "vacuity canary did not fire (contradictory requires or call does not return)"
                 elif cl["n"] < ob.get("expect_min", 1):
@@ -161,14 +172,7 @@ def run_obligation(ob, pid, suite_dir, root, keep):
                 elif missing:
                     res["why"] = "expected obligation classes missing: %s" % missing
                 elif cl["failed"]:
-                    res["status"] = "violation"
-                    res["failed"] = cl["failed"]
-                    # counterexample for the first failed property
-                    fp = cl["failed"][0]["property"]
-                    if ob.get("replay"):
-                        tr, why = C.trace_for(ob, scratch, gb, fp, log)
-                        res["cex"] = tr
-                    res["cbmc_tail"] = [f for f in cl["failed"]][:10]
+                    violation()
                 else:
                     res["status"] = "ok"
         res["fired"] = fired
